@@ -14,8 +14,8 @@ ASSUMPTIONS = ["hashlib (OpenSSL) is the reference for the primitives; RIPEMD-16
 NSHARDS = {"quick": 16, "thorough": 32}
 BUDGET_S = {"quick": 200, "thorough": 1500}
 MIN_HITS = {
-    'quick': {"hash": 903, "hmac": 759, "pbkdf2": 201, "chunks": 6164, "mnemonic": 2, "reuse": 294},
-    'thorough': {"hash": 7203, "hmac": 5281, "pbkdf2": 237, "chunks": 79080, "mnemonic": 7},
+    'quick': {"hash": 903, "hmac": 759, "pbkdf2": 219, "chunks": 6557, "mnemonic": 2, "reuse": 294},
+    'thorough': {"hash": 21603, "hmac": 19962, "pbkdf2": 787, "chunks": 322320, "mnemonic": 7},
 }
 FN = ["sha1", "sha256", "sha256d", "sha512", "ripemd160", "hash160"]
 
@@ -116,6 +116,16 @@ def cases(ctx):
                 pw = {"trail0": body[:-1] + b"\x00", "lead0": b"\x00" + body[1:], "zeros": bytes(pl), "trail00": (body[:-2] + b"\x00\x00") if pl >= 2 else b"\x00"}[shape]
                 salt = gen.rbytes(r, 7) + (b"\x00" if shape != "lead0" else b"")
                 yield {"k": "pbkdf2", "fn": fn, "password": pw.hex(), "salt": salt.hex(), "rounds": r.choice([1, 2]), "len": r.choice([20, 33, 64]), "shape": shape}
+    # back-to-back derivations whose password || salt concatenations are EQUAL but split differently (and the reverse order)
+    for fn in ("sha1", "sha256", "sha512"):
+        k += 1
+        if k % N != S:
+            continue
+        whole = gen.rbytes(r, r.choice([8, 27, 70]))
+        cuts = sorted(set([0, 1, len(whole) // 2, len(whole) // 2 + 1, len(whole) - 1, len(whole)]))
+        rd, ol = r.choice([1, 2, 3]), r.choice([20, 32, 64])
+        for c_ in cuts + cuts[::-1]:
+            yield {"k": "pbkdf2", "fn": fn, "password": whole[:c_].hex(), "salt": whole[c_:].hex(), "rounds": rd, "len": ol, "shape": "same_concatenation"}
     # random-salt mode: the library draws the salt and reports it; the reference recomputes with the reported salt
     for i in range(24 if t else 6):
         if i % N == S % 24 or t:
@@ -135,6 +145,8 @@ def cases(ctx):
             yield {"k": "chunks", "kind": kind, "chunks": [m.hex()], "reverse": bool(L & 1)}
         for rev in (False, True):
             cut = r.randrange(L + 1)
+            for ck in ("sha256d_chain", "sha256r_chain", "hash160_chain"):
+                yield {"k": "chunks", "kind": ck, "chunks": [m[:cut].hex(), m[cut:].hex()], "reverse": rev}
             yield {"k": "chunks", "kind": "hash160_new", "chunks": [m[:cut].hex(), m[cut:].hex()], "reverse": rev}
     if S == 0:
         ctx.exhaustive.append("all two-way splits of one random input of every length 0..%d through Sha256d/Sha256r/Hash160 adapters" % (130 if t else 70))
@@ -268,7 +280,7 @@ def judge(ctx, case):
             ctx.nontrivial()
         r = ctx.call({"op": "digest_chunks", "kind": case["kind"], "chunks": case["chunks"], "reverse": case["reverse"], "reuse": case.get("reuse", False)})
         ctx.ev()
-        fn = {"sha256d": hashes.sha256d, "sha256r": hashes.sha256, "hash160": hashes.hash160, "hash160_new": hashes.hash160, "signing_sha256": hashes.sha256, "signing_sha256d": hashes.sha256d}[case["kind"]]
+        fn = {"sha256d": hashes.sha256d, "sha256r": hashes.sha256, "hash160": hashes.hash160, "hash160_new": hashes.hash160, "sha256d_chain": hashes.sha256d, "sha256r_chain": hashes.sha256, "hash160_chain": hashes.hash160, "signing_sha256": hashes.sha256, "signing_sha256d": hashes.sha256d}[case["kind"]]
         exp = fn(m)
         if case["reverse"]:
             exp = exp[::-1]
